@@ -163,6 +163,15 @@ pub fn c15(thorough: bool, rng: &mut Rng, out: &mut Out) {
         out.stat("read.nested-codec-use");
         read_case(out, 2, evs, true);
     }
+    // tens of thousands of interrupted reads in a row at one position (more than any 16-bit retry counter holds)
+    for at in [0usize, 5, 12] {
+        let mut evs = singles.clone();
+        for _ in 0..70_000 {
+            evs.insert(at, "i".into());
+        }
+        out.stat("read.70000-interrupts-in-a-row");
+        read_case(out, 2, evs, true);
+    }
     // an error / zero read at every call index (`x`: an InvalidData error whose payload is the library's own
     // FrameError — still an I/O failure of the stream, not a verdict on a line)
     for kind in ["e", "z", "t", "x"] {
@@ -427,6 +436,14 @@ fn reply_tapes(rng: &mut Rng) -> Vec<(String, Vec<u8>)> {
         t.extend_from_slice(&good);
         v.push(("err".into(), t));
     }
+    // a sign or a blank where the leading zero of a pair was (`+3` is not a byte)
+    for (pos, c) in [(1usize, b'+'), (3, b'+'), (5, b'+'), (3, b'-'), (5, b' '), (7, b'+')] {
+        let mut t = good.clone();
+        if t[pos] == b'0' {
+            t[pos] = c;
+            v.push(("err".into(), t));
+        }
+    }
     let _ = rng;
     v
 }
@@ -573,6 +590,22 @@ pub fn c16(thorough: bool, rng: &mut Rng, out: &mut Out) {
     c16_echo(out);
     if thorough {
         long_transfer_on_one_bus(out, "C16");
+    }
+    // a reply that ends without a line feed (end of stream), then more than five idle seconds, then the next exchange on
+    // the same bus object: its reply is there and is returned
+    {
+        let a = 3u16;
+        let q = Message::QueryState(Address(a));
+        let r1 = msg_wire(&Message::ReportState(Address(a), State::PageLoaded));
+        let r2 = msg_wire(&Message::ReportState(Address(a), State::PageShown));
+        let line = format!("serialm {} {} | d:{} z s:5300 d:{} |", show_msg(&q), show_msg(&q), hex_of(&r1[..r1.len() - 2]), hex_of(&r2));
+        let i = out.case(line, true);
+        out.stat("serial.idle-after-unterminated-reply");
+        let got = out.impls[i].clone();
+        let parts: Vec<&str> = got.split(" ; ").collect();
+        if parts.len() != 2 || !parts[0].contains("=> ok RS") || !parts[1].contains("=> ok RS") {
+            out.fail(i, format!("C16 an exchange five idle seconds after a reply that ended without a line feed did not return the reply that was waiting: {}", trunc(&got)));
+        }
     }
     // a reply that trickles in over six seconds (three pauses of two seconds, each shorter than the port's read
     // timeout): delivered in full and without error, it is the reply
@@ -751,6 +784,22 @@ pub fn c18(thorough: bool, rng: &mut Rng, out: &mut Out) {
             }
         }
     }
+    // the same pacing while the calling thread is unwinding from a panic (exchanges made from a destructor)
+    {
+        let a = 3u16;
+        let lp = Message::ReportState(Address(a), State::PageLoadInProgress);
+        let q = Message::QueryState(Address(a));
+        let msgs = vec![sd(0, &[1u8; 16]), sd(16, &[2u8; 16]), q.clone(), Message::Goodbye(Address(a))];
+        let tape = msg_wire(&lp);
+        let line = format!("serialmtu {} | d:{} |", msgs.iter().map(show_msg).collect::<Vec<_>>().join(" "), hex_of(&tape));
+        let i = out.case(line, true);
+        out.stat("pace.while-unwinding");
+        let got = out.impls[i].clone();
+        let parts: Vec<&str> = got.split(" ; ").collect();
+        if parts.len() != 4 || !parts[0].contains(" G:30") || !parts[1].contains(" G:30") || !parts[2].contains(" S:100") {
+            out.fail(i, format!("C18 exchanges made while the thread unwinds from a panic: pacing missing: {}", trunc(&got)));
+        }
+    }
     // a port that is a little slow ALL the time (every write takes 15 ms, every reply 40 ms to start): the pauses are
     // minimum gaps, not a cadence — time the port itself took does not count towards them
     {
@@ -909,6 +958,18 @@ fn c20_timeouts(out: &mut Out) {
 pub fn c20(thorough: bool, rng: &mut Rng, out: &mut Out) {
     c20_error_kinds(thorough, out);
     c20_timeouts(out);
+    // a settings object that cannot name the device's current state (every getter returns None): all five fields are
+    // still written
+    for prior in ["n7,3,0,0,1", "n7,3,0,0,2", "n0,1,2,1,1", "no0,0,1,1,2", "n7,3,0,0,0"] {
+        for entry in ["serial", "odk", "cfg:250"] {
+            let i = out.case(format!("port {} {} never", entry, prior), true);
+            out.stat("port.getters-return-none");
+            if !out.impls[i].starts_with("ok 7,3,0,0,0 ") {
+                let got = out.impls[i].clone();
+                out.fail(i, format!("C20 on a port whose settings object cannot name its prior state ({}) set-up left '{}'", prior, got));
+            }
+        }
+    }
     c20_cross_product(thorough, out);
     out.rule = "every prior PortSettings value (11 standard baud rates + BaudOther{0,19200,4000000} x 4 character sizes x 3 parities x 2 stop bits x 3 flow controls = 1008) x failure injected at read_settings / set_baud_rate / write_settings / set_timeout / nowhere x {SerialSignBus::try_new, Odk::try_new, configure_port with a caller timeout}; plus every error kind (NoDevice, InvalidInput, Io Interrupted / TimedOut / Other / WouldBlock / PermissionDenied) at every failure point for a sample of prior settings; non-trivial = every case; distinct = distinct case line".into();
     out.exhaustive_note = "thorough: the product prior settings x failure points x entry points is enumerated completely; quick skips two thirds of the failure cases of the non-default entry points".into();
@@ -1063,7 +1124,17 @@ pub fn c17(thorough: bool, rng: &mut Rng, out: &mut Out) {
                     f[2] = b'2';
                     (f, false)
                 }
-                8 => (b"\r\n".to_vec(), false),
+                8 => (if rng.chance(50) { b"\r\n".to_vec() } else {
+                    // a well-formed line with the leading 0 of a pair replaced by a sign or a blank
+                    let mut f = enc_nl(a, 2, &[0xFF]);
+                    let p = 1 + 2 * (rng.below(((f.len() - 3) / 2) as u64) as usize);
+                    if f[p] == b'0' {
+                        f[p] = *rng.pick(&[b'+', b'-', b' ']);
+                        f
+                    } else {
+                        b"\r\n".to_vec()
+                    }
+                }, false),
                 0 => (b":01000302XX\r\n".to_vec(), false),
                 1 => {
                     let mut f = enc_nl(a, 2, &[0xFF]);
